@@ -750,7 +750,10 @@ impl Cx<'_> {
     }
 
     fn uri_template(&mut self, _depth: usize) -> Vec<Tok> {
-        let n = self.rng.range(1, 3);
+        // now and then a long path: many segments with long names (labels derived from the
+        // path, such as operation ids, then exceed any small bound)
+        let long = self.rng.chance(1, 8);
+        let n = if long { self.rng.range(5, 9) } else { self.rng.range(1, 3) };
         let mut v = Vec::new();
         let mut vars = 0;
         for i in 0..n {
@@ -779,7 +782,8 @@ impl Cx<'_> {
                 vars += 1;
                 self.features.insert("uri_variable");
             } else {
-                let mut tk = tt(&format!("/s{id}"));
+                let seg = if long { format!("/{}-{id}", self.rng.pick(&["organisations", "departments", "employees", "timesheets", "approvals"])) } else { format!("/s{id}") };
+                let mut tk = tt(&seg);
                 tk.tight = i > 0;
                 v.push(tk);
             }
@@ -973,10 +977,14 @@ pub fn generate(rng: &mut Rng, cfg: &GenCfg) -> ProgramAst {
         .map(|i| ModuleAst {
             path: if i == 0 {
                 "main.oal".to_string()
-            } else if rng.chance(1, 4) {
-                format!("sub/m{i}.oal")
             } else {
-                format!("m{i}.oal")
+                match rng.below(12) {
+                    0..=2 => format!("sub/m{i}.oal"),
+                    3 => format!("m {i}.oal"),
+                    4 => format!("mé{i}.oal"),
+                    5 => format!("sub dir/m{i}.oal"),
+                    _ => format!("m{i}.oal"),
+                }
             },
             stmts: Vec::new(),
         })
@@ -1108,7 +1116,13 @@ pub fn generate(rng: &mut Rng, cfg: &GenCfg) -> ProgramAst {
                     } else {
                         rng.pick(POOL).to_string()
                     };
-                    while used.contains(&pn) || pn == "concat" {
+                    // now and then two parameters share a name (accepted: the last one binds)
+                    let dup = !params.is_empty() && rng.chance(1, 8);
+                    if dup {
+                        pn = params[rng.below(params.len())].0.clone();
+                        features.insert("duplicate_parameter_name");
+                    }
+                    while !dup && (used.contains(&pn) || pn == "concat") {
                         pn = format!("{}{}", pn, rng.below(10));
                     }
                     used.insert(pn.clone());
@@ -1303,7 +1317,7 @@ pub fn generate(rng: &mut Rng, cfg: &GenCfg) -> ProgramAst {
                 in_function: false,
             };
             let mut toks = vec![t("res")];
-            let (v, _) = cx.expr(Kind::Rel, 2);
+            let (v, _) = cx.expr(Kind::Rel, 4);
             toks.extend(v);
             toks.push(t(";"));
             stmts.push(Stmt {
@@ -1426,7 +1440,14 @@ pub fn generate(rng: &mut Rng, cfg: &GenCfg) -> ProgramAst {
 /// A function body of kind `k` that mentions its parameters where their kinds fit.
 fn gen_function_body(cx: &mut Cx, k: Kind, depth: usize) -> (Vec<Tok>, bool) {
     // Build a container of the right kind and place parameters inside it.
-    let params: Vec<Local> = cx.params.clone();
+    // parameters that can be named here: of two parameters with the same name only the last binds
+    let params: Vec<Local> = cx
+        .params
+        .iter()
+        .enumerate()
+        .filter(|(i, p)| !cx.params[i + 1..].iter().any(|q| q.name == p.name))
+        .map(|(_, p)| p.clone())
+        .collect();
     let schema_params: Vec<&Local> = params.iter().filter(|p| matches!(p.kind, Kind::S(_))).collect();
     let prop_params: Vec<&Local> = params.iter().filter(|p| matches!(p.kind, Kind::Prop(_))).collect();
     let content_params: Vec<&Local> = params.iter().filter(|p| p.kind == Kind::Content).collect();
